@@ -250,6 +250,24 @@ pub fn c08(g: &mut Gen) {
             }
         }
     }
+    // what a training run WITH validation data leaves behind: every layer still produces the shape it announced (a
+    // deconvolution / convolution / max-pool that is not followed by a dense layer stays spatial), and the count is unchanged
+    for kind in 0..3usize {
+        let c = ArchCfg { dropout: false, wscale: 0.5, ..ArchCfg::small() };
+        let first = match kind {
+            0 => InnerSpec::Deconv { filters: 2, act: "tanh".into(), k: (2, 2), s: (1, 1), p: (0, 0), dropout: None, ks: (0..2).map(|_| weights(g, &Shape::Triple(1, 2, 2), 0.5)).collect() },
+            1 => InnerSpec::Conv { filters: 2, act: "tanh".into(), k: (2, 2), s: (1, 1), p: (1, 1), d: (1, 1), dropout: None, ks: (0..2).map(|_| weights(g, &Shape::Triple(1, 2, 2), 0.5)).collect() },
+            _ => InnerSpec::Deconv { filters: 2, act: "tanh".into(), k: (1, 2), s: (1, 1), p: (0, 0), dropout: Some(0.5), ks: (0..2).map(|_| weights(g, &Shape::Triple(1, 1, 2), 0.5)).collect() },
+        };
+        let (h, w) = match kind { 0 => (4usize, 4usize), 1 => (4, 4), _ => (3, 4) };
+        let second = InnerSpec::Conv { filters: 1, act: "tanh".into(), k: (2, 2), s: (1, 1), p: (0, 0), d: (1, 1), dropout: None, ks: vec![weights(g, &Shape::Triple(2, 2, 2), 0.5)] };
+        let builds = vec![Build::Layer(first), Build::Layer(second), Build::Layer(dense_spec(g, &c, (h - 1) * (w - 1), 2, "linear", true))];
+        let net = NetSpec { input: Shape::Triple(1, 3, 3), builds, skipacc: "add".into(), loopacc: "mean".into(), opt: Some(OptSpec::Sgd(0.05, None)), obj: "mse".into(), clamp: None };
+        let s = samples_tok(g, &net, &Sh::Flat(2), 3);
+        let v = samples_tok(g, &net, &Sh::Flat(2), 2);
+        g.push(format!("net {} learn 3 {} 1 2 {} 5 2 2 0", net.token(), s, v), Tol::Loose, &format!("after-training-with-validation/kind{}", kind), true);
+        g.push(format!("net {} learn 3 {} 0 2 2 0", net.token(), s), Tol::Loose, &format!("after-training/kind{}", kind), true);
+    }
     // skip connections between positions of DIFFERENT shape (same element count): spatial into re-arranged spatial, spatial into
     // the flattened input of a dense layer — under every accumulation the target produces the shape it announces
     for acc in ACCS.iter() {
@@ -640,6 +658,17 @@ pub fn c13(g: &mut Gen) {
                 g.push(format!("net {} learn 1 {} 1 1 {} {} 1 12 {} {}", net.token(), sample, sample, t, s.len(), q1(s)), Tol::Tight, &format!("rising-across-accuracy-jump/T{}", t), true);
             }
         }
+    }
+    // several training samples in groups that do not divide them (3 / 2, 5 / 2, 7 / 3, 5 / 4, 3 / 5): still ONE training-loss entry
+    // per epoch, and as many validation entries
+    for (n, b) in [(3usize, 2usize), (5, 2), (7, 3), (5, 4), (3, 5), (4, 2)] {
+        let many: Vec<String> = (0..n).map(|i| format!("S 1 {} S 1 {}", hx(1.0 + 0.25 * i as f32), hx(0.0))).collect();
+        for (t, e, s) in [(2usize, 5usize, vec![1.0f32, 2.0, 3.0, 4.0, 5.0]), (2, 4, vec![4.0, 3.0, 2.0, 1.0]), (1, 3, vec![2.0, 2.0, 2.0])] {
+            let net = one_param_net(0.5, 0.01);
+            g.push(format!("net {} learn {} {} 1 1 {} {} {} {} {} {}", net.token(), n, many.join(" "), sample, t, b, e, s.len(), q1(&s)), Tol::Tight, &format!("several-samples/N{}/B{}", n, b), true);
+        }
+        let net = one_param_net(0.5, 0.01);
+        g.push(format!("net {} learn {} {} 0 {} 3 0", net.token(), n, many.join(" "), b), Tol::Tight, &format!("several-samples/no-validation/N{}/B{}", n, b), true);
     }
     // hook-free family: the error contracts (lr < 1) or expands (lr > 1) by |1 - 2 lr| per epoch, or oscillates around a plateau
     for lr in [0.1f32, 0.4, 0.5, 0.9, 1.0, 1.05, 1.2, 1.5] {
@@ -1229,6 +1258,9 @@ pub fn c11(g: &mut Gen) {
         let s = samples_tok(g, &net, &Sh::Flat(2), 3);
         g.push(format!("net {} validate 3 {} {} 0", net.token(), s, hx(0.1)), Tol::Tight, &format!("validate-then-predict/block-dropout{}", bi), true);
     }
+    // a block with dropout after a training run that STOPPED EARLY (and one that ran to the end): it is the plain repeated
+    // application again
+    early_stopped_dropout_learn(g, "after-learn");
     // exact arithmetic: a linear layer that multiplies by a power of two, inputs that are small integers times one power of
     // two (ordinary, deep in the subnormal range, just above it): every sum is exact, a mean is ONE correctly rounded
     // division — compared bit for bit (mean of three is not a power-of-two division; mean(u, u) = u for the smallest u)
@@ -2260,6 +2292,26 @@ pub fn c01(g: &mut Gen) {
         let x = input_for(g, &net.input);
         let t = target_for(g, &out, "mse");
         g.push(format!("net {} backward {} {}", net.token(), qt(&x), qt(&t)), Tol::Tight, "zoo/backward", true);
+    }
+    // networks with a dropout rate somewhere (inactive outside training): a convolution / deconvolution directly in front of a
+    // dense layer, dropout on the spatial layer or on the dense layer — the gradients are those of the plain operators, also
+    // after a stand-alone evaluation of the same object (the harness calls validate before these requests)
+    for kind in 0..4usize {
+        let c = ArchCfg { dropout: false, wscale: 0.5, ..ArchCfg::small() };
+        let half = Some(0.5f32);
+        let (input, first, count) = match kind {
+            0 => (Shape::Triple(1, 3, 4), InnerSpec::Conv { filters: 2, act: "tanh".into(), k: (2, 2), s: (1, 1), p: (0, 0), d: (1, 1), dropout: None, ks: (0..2).map(|_| weights(g, &Shape::Triple(1, 2, 2), 0.5)).collect() }, 12),
+            1 => (Shape::Triple(1, 3, 4), InnerSpec::Conv { filters: 2, act: "tanh".into(), k: (2, 2), s: (1, 1), p: (0, 0), d: (1, 1), dropout: half, ks: (0..2).map(|_| weights(g, &Shape::Triple(1, 2, 2), 0.5)).collect() }, 12),
+            2 => (Shape::Triple(1, 2, 3), InnerSpec::Deconv { filters: 1, act: "tanh".into(), k: (2, 2), s: (1, 1), p: (0, 0), dropout: None, ks: vec![weights(g, &Shape::Triple(1, 2, 2), 0.5)] }, 12),
+            _ => (Shape::Triple(1, 4, 4), InnerSpec::Maxpool { k: (2, 2), s: (2, 2) }, 4),
+        };
+        let mut mid = dense_spec(g, &c, count, 5, "tanh", true);
+        if let InnerSpec::Dense { dropout, .. } = &mut mid { *dropout = half; }
+        let builds = vec![Build::Layer(first), Build::Layer(mid), Build::Layer(dense_spec(g, &c, 5, 2, "linear", true))];
+        let net = NetSpec { input, builds, skipacc: "add".into(), loopacc: "mean".into(), opt: None, obj: "mse".into(), clamp: None };
+        let x = input_for(g, &net.input);
+        let t = target_for(g, &Sh::Flat(2), "mse");
+        g.push(format!("net {} backward {} {}", net.token(), qt(&x), qt(&t)), Tol::Tight, &format!("dropout-configured/after-evaluation/kind{}", kind), true);
     }
     // seeded random stream: any depth / mix, all objectives
     for i in 0..g.n(150, 4000) {
